@@ -129,3 +129,20 @@ def far_copies(rng, cases, keys, count):
                 d[k] = shift(d[k], off)
         out.append(d)
     return out
+
+
+def big_timeline(rng, regime, n):
+    """about n distinct segments on a dense grid: runs of 1-4 segments sharing a start (different ends), short
+    lengths so that each segment meets a handful of others, a few long ones spanning many; sizes that cross
+    the chunk / load-factor thresholds an implementation may use (256, 512, 1000)"""
+    u = 5 if regime == "K4" else 1
+    segs = set()
+    start = 0
+    while len(segs) < n:
+        for _ in range(rng.choice([1, 1, 2, 3, 3, 4])):
+            ln = rng.choice([1, 2, 3, 4, 6]) if rng.random() < 0.97 else rng.randrange(20, 200)
+            segs.add((start * u, (start + ln) * u))
+        start += rng.choice([0, 1, 1, 1, 2, 5]) if rng.random() < 0.9 else 12
+    out = [list(s) for s in segs]
+    rng.shuffle(out)
+    return out
